@@ -34,6 +34,11 @@ mod verif_c18 {
     #[kani::unwind(9)]
     fn c18_atomic_seq8() { atomic_seq(8); }
 
+    // @h name=c18_atomic_seq16 tier=thorough timeout=3600
+    #[kani::proof]
+    #[kani::unwind(17)]
+    fn c18_atomic_seq16() { atomic_seq(16); }
+
     fn atomic_seq(steps: usize) {
         // symbolic sequence of <= 4 operations against a plain usize reference
         let init: usize = kani::any();
